@@ -388,11 +388,16 @@ def grids(tier):
         d_at = A("int", "qubit", "?a", "?b")
         d_ac = A("1", "?n")
         d1 = dedup(d_at + mk(d_at, d_ac, ["tuple1", "tuple2", "array", "option", "fn1"]))
-        d2 = dedup(d1 + mk(d_at, d_ac, ["tuple1", "tuple2", "array", "option", "fn1"], inner=d1))
-        out.append(("T0:depth<=2 pairs (reduced atoms) x {}", d2, d_ac, [()]))
+        d1m = dedup(d_at + mk(d_at, d_ac, ["tuple1", "array", "option", "fn1"]))   # without tuple2
+        d2 = dedup(d1 + mk(d_at, d_ac, ["tuple1", "array", "option"], inner=d1)
+                   + mk(d_at, d_ac, ["tuple2", "fn1"], inner=d1m))
+        out.append(("T0:depth<=2 pairs (atoms int qubit ?a ?b, consts 1 ?n; binary constructors over "
+                    "the tuple2-free depth-1 terms) x {}", d2, d_ac, [()]))
         e_at = A("int", "?a", "?b")
         e1 = dedup(e_at + mk(e_at, A("?n"), ["tuple1", "array", "fn1"]))
-        e2 = dedup(e1 + mk(e_at, A("1", "?n"), ["tuple1", "tuple2", "array", "fn1"], inner=e1))
+        e1m = dedup(e_at + mk(e_at, A("?n"), ["tuple1", "array"]))
+        e2 = dedup(e1 + mk(e_at, A("1", "?n"), ["tuple1", "tuple2", "array"], inner=e1)
+                   + mk(e_at, A("1", "?n"), ["fn1"], inner=e1m))
         s1 = dedup(s_at + mk(s_at, s_ac, ["tuple1", "array", "fn1"]))
         out.append(("T1:depth<=2 pairs (small atoms) x 1 binding", e2, A("1", "?n"),
                     sigmas(s1, s_ac, 1, tvars=("?a", "?b", "?c"), cvars=("?n",))))
@@ -405,6 +410,10 @@ def grids(tier):
                    + mk(A("?a", "?b", "?c"), (), ["tuple2"]))
         out.append(("T3:reduced depth<=1 pairs x 2 bindings (range reduced depth<=1)",
                     p1, p_ac, [s for s in sigmas(s2, s_ac, 2) if len(s) == 2]))
+        z_at = A("int", "?a", "?b")
+        z1 = dedup(z_at + mk(z_at, (), ["tuple1", "tuple2"]) + mk(A("int"), A("1", "?n", "?m"), ["array"]))
+        z2 = dedup(z1 + mk(z_at, (), ["tuple1", "tuple2"], inner=z1))
+        out.append(("G3:depth<=2 pairs (tuples of int ?a ?b tuples and array[int, 1|?n|?m]) x {}", z2, [], [()]))
     return out
 
 
